@@ -20,6 +20,8 @@ pub struct C09 {
     pub corpus: Arc<Corpus>,
     /// (file index, clean encoding length)
     clean_len: Vec<usize>,
+    /// number of `write` calls an unbuffered sink sees while a file's map is encoded (capped)
+    write_calls: Vec<u64>,
     quick: Layout,
     thorough: Layout,
 }
@@ -65,6 +67,27 @@ impl C09 {
                 out.len()
             })
             .collect();
+        struct Count(u64);
+        impl std::io::Write for Count {
+            fn write(&mut self, b: &[u8]) -> std::io::Result<usize> {
+                self.0 += 1;
+                Ok(b.len())
+            }
+            fn flush(&mut self) -> std::io::Result<()> {
+                Ok(())
+            }
+        }
+        let write_calls: Vec<u64> = corpus
+            .files
+            .iter()
+            .map(|(_, b)| {
+                let mut m: Beatmap = rosu_map::from_bytes(b).unwrap_or_default();
+                let mut c = Count(0);
+                let _ = m.encode(&mut c);
+                if b.len() <= 8192 { c.0.min(6000) } else { 0 }
+            })
+            .collect();
+        let wc = write_calls.clone();
         let mk = |tier: Tier| -> Layout {
             let (edge, stride, rv, seeded) = match tier {
                 Tier::Quick => (768, 977, 2u64, 40_000u64),
@@ -84,7 +107,7 @@ impl C09 {
                 let n = clean_len[i];
                 let mut offs = offsets_for(n, edge, stride * 2);
                 offs.retain(|&o| (o as usize) < n.max(1));
-                cum += offs.len() as u64 * WRITE_VARIANTS + l.extra_per_file;
+                cum += offs.len() as u64 * WRITE_VARIANTS + l.extra_per_file + wc[i];
                 l.write_cum.push(cum);
                 l.write_offsets.push(offs);
             }
@@ -92,7 +115,7 @@ impl C09 {
         };
         let quick = mk(Tier::Quick);
         let thorough = mk(Tier::Thorough);
-        C09 { corpus, clean_len, quick, thorough }
+        C09 { corpus, clean_len, write_calls, quick, thorough }
     }
     fn layout(&self, tier: Tier) -> &Layout {
         match tier {
@@ -150,6 +173,7 @@ impl Scenario for C09 {
             .with("stub", J::Arr(vec![J::str("byte source SimReader"), J::str("byte sink SimWriter")]))
     }
     fn total_runs(&self, tier: Tier) -> u64 {
+        let _ = &self.write_calls;
         let l = self.layout(tier);
         OSFS + TINY + l.read_cum.last().copied().unwrap_or(0) + l.write_cum.last().copied().unwrap_or(0) + l.seeded
     }
@@ -271,9 +295,15 @@ impl Scenario for C09 {
                     p.faults.push("W2-interrupted".into());
                 }
             } else {
-                let k = j - noffs * WRITE_VARIANTS; // 0..24 extras per file
+                let k = j - noffs * WRITE_VARIANTS; // 0..24 extras per file, then one plan per write call
                 p.scen = "write-extra".into();
                 match k {
+                    k if k >= l.extra_per_file => {
+                        // Interrupted on exactly one write call, for every write call of the encoding (unbuffered sink):
+                        // every hand-written write loop gets its turn
+                        p.eintr = vec![(k - l.extra_per_file) as u32];
+                        p.faults.push("W2-interrupted-at-one-write-call".into());
+                    }
                     0 => {
                         p.set("flush_err", 0);
                         p.faults.push("W5-flush-error".into());
